@@ -112,6 +112,7 @@ STYLES = [
     ('cell', 'chain_rev', 'io_first'),        # chain of two forks, the DOWNSTREAM fork is created first
     ('cell', 'always', 'states_last'),        # node list: forks before cells, state elements at the very end (every deletion displaces one)
     ('fork', 'chain', 'forks_first'),         # node list: all forks first, then the cells in creation order
+    ('cell', 'open_nets', 'io_first'),        # a signal nobody reads still has its line and a named fork without fan-out (an unused net)
 ]
 
 
@@ -185,7 +186,12 @@ def build(nl, style=STYLES[0], io_order='in_out'):
     fork_names = itertools.count()
     for sig in nl.signals():
         rs = readers.get(sig, [])
-        if not rs: continue
+        if not rs:
+            if forks == 'open_nets' and sig[0] in 'gqn':
+                dn, dpin = driver_of(sig)
+                f = Node(c, f'{sig}_open{next(fork_names)}')
+                b.sig_lines.setdefault(sig, []).append(Line(c, dn if dpin is None else (dn, dpin), f))
+            continue
         dn, dpin = driver_of(sig)
         lines = b.sig_lines.setdefault(sig, [])
 
